@@ -381,8 +381,10 @@ func collect(v reflect.Value, set *memSet, d int) {
 			return
 		}
 		set.add(v.Pointer(), uintptr(v.Cap())*v.Type().Elem().Size())
-		for i := 0; i < v.Len(); i++ {
-			collect(v.Index(i), set, d+1)
+		// the elements between len and cap are reachable by reslicing
+		full := v.Slice3(0, v.Cap(), v.Cap())
+		for i := 0; i < full.Len(); i++ {
+			collect(full.Index(i), set, d+1)
 		}
 	case reflect.Map:
 		if v.IsNil() {
